@@ -220,7 +220,15 @@ func H15_errors() {
 	var v interface{}
 	wantErr := true
 	var nilp *hLeaf
-	switch sv.Choice("case", 18) {
+	switch sv.Choice("case", 22) {
+	case 18: // kinds with no counterpart in the language
+		v = uintptr(7)
+	case 19:
+		v = struct{ H uintptr }{7}
+	case 20:
+		v = []uintptr{1, 2}
+	case 21:
+		v = map[string]uintptr{"k": 1}
 	case 12: // typed nil containers are nil, not empty containers
 		v = []int(nil)
 	case 13:
@@ -320,7 +328,18 @@ type hPtrs struct {
 	P *float64 `yae:"p"`
 	Q *hLeaf   `yae:"q"`
 }
+type hPt struct {
+	X, Y float64
+}
+type hSeg struct {
+	From hPt  `yae:"from"`
+	To   hPt  `yae:"to"`
+	Via  *hPt `yae:"via,maybe"`
+}
+
 type hHolder struct {
+	Segs []hSeg          `yae:"segs"`
+	SegM map[string]hSeg `yae:"segm"`
 	O  *hPtrs           `yae:"o,maybe"`
 	Xs []hPtrs          `yae:"xs"`
 	M  map[string]hPtrs `yae:"m"`
@@ -337,15 +356,17 @@ func H15_shape() {
 		f := sv.Float64(name + ".p")
 		leaf := someLeaf(name + ".q")
 		one := hPtrs{P: &f, Q: &leaf}
-		h := hHolder{Xs: []hPtrs{}, M: map[string]hPtrs{}, A: [1]hPtrs{one}}
+		h := hHolder{Xs: []hPtrs{}, M: map[string]hPtrs{}, A: [1]hPtrs{one}, Segs: []hSeg{}, SegM: map[string]hSeg{}}
 		if filled {
+			h.Segs = []hSeg{{From: hPt{1, 2}, To: hPt{3, 4}}}
+			h.SegM["s"] = hSeg{Via: &hPt{5, 6}}
 			h.O = &one
 			h.Xs = []hPtrs{one}
 			h.M["k"] = one
 		}
 		return h
 	}
-	which := sv.Choice("part", 4) // which part differs between the two samples
+	which := sv.Choice("part", 6) // which part differs between the two samples
 	a, b := mk("a", false), mk("b", false)
 	full := mk("f", true)
 	switch which {
@@ -355,6 +376,10 @@ func H15_shape() {
 		b.Xs = full.Xs
 	case 2:
 		b.M = full.M
+	case 3:
+		b.Segs = full.Segs
+	case 4:
+		b.SegM = full.SegM
 	default:
 		a, b = full, mk("b", true)
 	}
@@ -379,7 +404,9 @@ func H15_shape() {
 	sv.Assert("type-of-value-equals-reported-type", RefTypeEq(va.Type, ta) && RefTypeEq(vb.Type, tb))
 	sv.Assert("well-formed", RefWellTyped(va, va.Type) == "" && RefWellTyped(vb, vb.Type) == "")
 	inner := ObjT([]string{"p", "q"}, []*types.Type{tNum, tLeaf})
-	want := ObjT([]string{"o", "xs", "m", "a"}, []*types.Type{types.Maybe(inner), types.List(inner), types.Map(tStr, inner), types.List(inner)})
+	pt := ObjT([]string{"X", "Y"}, []*types.Type{tNum, tNum})
+	seg := ObjT([]string{"from", "to", "via"}, []*types.Type{pt, pt, types.Maybe(pt)})
+	want := ObjT([]string{"segs", "segm", "o", "xs", "m", "a"}, []*types.Type{types.List(seg), types.Map(tStr, seg), types.Maybe(inner), types.List(inner), types.Map(tStr, inner), types.List(inner)})
 	sv.Assert("type-is-the-one-the-go-type-dictates", RefTypeEq(ta, want))
 	sv.Reach("compared")
 }
